@@ -42,8 +42,17 @@ func (p *expressionPostFixerImpl) ConvertToPostfix(infixTokens []*token) ([]*Ope
 	var opStack = []*token{{TokenType: openBracket}}
 	var tokens = append(infixTokens, &token{TokenType: closeBracket})
 
+	prevEndsOperand, prevIsPrefixOp := false, false
 	for index, currentToken := range tokens {
 		log.Debugf("postfix processing currentToken %v", currentToken.toString(true))
+		// an operand may not directly follow a complete operand, nor a prefix operator unless bracketed
+		isOp := currentToken.TokenType == operationToken
+		startsOperand := currentToken.TokenType&(openBracket|openCollect|openCollectObject) != 0 || (isOp && currentToken.Operation.OperationType.NumArgs < 2)
+		if startsOperand && (prevEndsOperand || (prevIsPrefixOp && currentToken.TokenType != openBracket)) {
+			return nil, errors.New("bad expression, please check expression syntax")
+		}
+		prevEndsOperand = currentToken.TokenType&(closeBracket|closeCollect|closeCollectObject) != 0 || (isOp && currentToken.Operation.OperationType.NumArgs == 0)
+		prevIsPrefixOp = isOp && currentToken.Operation.OperationType.NumArgs == 1
 		switch currentToken.TokenType {
 		case openBracket, openCollect, openCollectObject:
 			opStack = append(opStack, currentToken)
